@@ -17,6 +17,16 @@ CLAIMED = {
         "DESIGN.md 4 C20"),
 }
 
+CLAIMED["C03"] = (
+    "Coq proof (induction over frames and read events) + differential correspondence ParseLog vs model",
+    "Theorems decode_encode / decode_frag_indep / cut_in_header / cut_in_body / reader_failure_* / daemon_error_frame / bad_timestamp / no_space "
+    "proved in Coq for all record sequences, all fragmentations (frag cuts) and all fault positions about a transliteration of streamIter.parseNext "
+    "(io.ReadFull/io.CopyN semantics included); tied to /repo by running dockerlog.ParseLog over a scripted fragmenting, fault-injecting reader and "
+    "comparing records and end state with the model inside Coq, plus the property's own expectation (records wholly before the fault, clean vs error).",
+    "Trusted: Coq kernel + vm_compute; time.Parse/Format(RFC3339Nano) is a library oracle (theorems assume parse(fmt t)=Some t and no space in fmt t; "
+    "executable instance Base/TimeFmt.v validated by correspondence only); reader events are sticky and never return (0,nil); harness + generators.",
+    "DESIGN.md 4 C03")
+
 REASON_PENDING = "check not built yet in this round; planned (see DESIGN.md section 4/8) - no claim is made until the proof and correspondence exist"
 
 def main():
